@@ -600,12 +600,125 @@ fn many_tables_one_cache(d: &mut Driver, rep: &mut Report, rng: &mut Rng) {
         }
     }
 }
+/// a file of more than 4 GiB that exists only as two islands of bytes (everything else reads as zero)
+struct SparseFile {
+    islands: Vec<(usize, Vec<u8>)>,
+    size: usize,
+}
+impl RandomAccess for SparseFile {
+    fn read_at(&self, off: usize, dst: &mut [u8]) -> sstable::Result<usize> {
+        if off >= self.size {
+            return Ok(0);
+        }
+        let n = dst.len().min(self.size - off);
+        for b in dst[..n].iter_mut() {
+            *b = 0;
+        }
+        for (start, bytes) in self.islands.iter() {
+            let lo = off.max(*start);
+            let hi = (off + n).min(start + bytes.len());
+            if lo < hi {
+                dst[lo - off..hi - off].copy_from_slice(&bytes[lo - start..hi - start]);
+            }
+        }
+        Ok(n)
+    }
+}
+/// Block offsets beyond 4 GiB (judged on the real crate only: the image cannot be handed to the model). A hand-encoded
+/// table with one data block at offset 0 and one at 2^32 + X shares a cache with ordinary small tables that have a
+/// block at offset X (and at 0); handles are opened in several orders so that cache ids line up in every way; every
+/// answer must equal the answer of the same handle on a private cache.
+fn tables_beyond_4gib(rep: &mut Report, rng: &mut Rng) {
+    use crate::refenc::{block_contents, handle, physical};
+    // the small table: two data blocks; X = offset of its second block
+    let cfg = WCfg { cmp: CmpKind::Bytewise, block_size: 30, restart: 2, snappy: false, pol: PolKind::NoFilter };
+    let small_es: Vec<(Vec<u8>, Vec<u8>)> = (0..6).map(|i| (format!("k{:02}", i).into_bytes(), format!("small-{}", i).into_bytes())).collect();
+    let small = tb_build_impl(&cfg, &small_es, &[]);
+    if small.finish_ok.is_none() {
+        return;
+    }
+    let small_img = small.received.clone();
+    // X: start of the second data block of the small table = length of its first physical block
+    let first_len = {
+        let o = Options::default();
+        match Table::new(o, Box::new(small_img.clone()), small_img.len()) {
+            Ok(t) => t.approx_offset_of(&small_es.last().unwrap().0.clone()),
+            Err(_) => return,
+        }
+    };
+    for x in [0usize, first_len] {
+        let base = (1usize << 32) + x;
+        let b0_es = vec![(b"a0".to_vec(), b"big-a0".to_vec()), (b"a1".to_vec(), b"big-a1".to_vec())];
+        let b1_es = vec![(b"m0".to_vec(), b"big-m0".to_vec()), (b"m1".to_vec(), b"big-m1".to_vec())];
+        let p0 = physical(&block_contents(rng, &b0_es, false), 0);
+        let c1 = block_contents(rng, &b1_es, false);
+        let mut island_b = physical(&c1, 0);
+        let meta_c = block_contents(rng, &[], false);
+        let meta_off = base + island_b.len();
+        island_b.extend(physical(&meta_c, 0));
+        let index_es = vec![(b"a1".to_vec(), handle(0, p0.len() - 5)), (b"m1".to_vec(), handle(base, c1.len()))];
+        let index_c = block_contents(rng, &index_es, false);
+        let index_off = base + island_b.len();
+        island_b.extend(physical(&index_c, 0));
+        let mut foot = handle(meta_off, meta_c.len());
+        foot.extend(handle(index_off, index_c.len()));
+        foot.resize(40, 0);
+        foot.extend_from_slice(&[0x57, 0xfb, 0x80, 0x8b, 0x24, 0x75, 0x47, 0xdb]);
+        island_b.extend(foot);
+        let size = base + island_b.len();
+        let mk_big = |o: Options| Table::new(o, Box::new(SparseFile { islands: vec![(0, p0.clone()), (base, island_b.clone())], size }), size);
+        let mk_small = |o: Options| Table::new(o, Box::new(small_img.clone()), small_img.len());
+        let probes: Vec<Vec<u8>> = vec![b"a0".to_vec(), b"m1".to_vec(), b"k00".to_vec(), b"k05".to_vec(), b"m0".to_vec(), b"k03".to_vec(), b"a1".to_vec()];
+        // opening orders: the big table 1st..4th among small ones
+        for pos in 0..4usize {
+            let shared = Options::default().with_cache_capacity(16);
+            let mut handles: Vec<(bool, Table)> = vec![];
+            let mut ok = true;
+            for k in 0..4usize {
+                let t = if k == pos { mk_big(shared.clone()) } else { mk_small(shared.clone()) };
+                match t {
+                    Ok(t) => handles.push((k == pos, t)),
+                    Err(e) => {
+                        rep.judge_fail(J::obj(vec![("what", J::s("a hand-encoded table beyond 4 GiB (or a small table next to it) does not open")), ("error", J::s(&format!("{:?}", e.code)))]));
+                        ok = false;
+                        break;
+                    }
+                }
+            }
+            if !ok {
+                return;
+            }
+            rep.case(&format!("beyond-4gib x={} pos={}", x, pos), true);
+            rep.count("sessions_with_block_offsets_beyond_4gib");
+            for round in 0..2 {
+                for (hi, (is_big, t)) in handles.iter().enumerate() {
+                    for p in probes.iter() {
+                        let private = if *is_big { mk_big(Options::default()) } else { mk_small(Options::default()) };
+                        let want = match private {
+                            Ok(pt) => pt.get(p).ok().flatten(),
+                            Err(_) => None,
+                        };
+                        let got = t.get(p).ok().flatten();
+                        if got != want {
+                            rep.judge_fail(J::obj(vec![("what", J::s("with a block offset beyond 4 GiB on a shared cache a lookup differs from the same table on a private cache (another table's block is served)")), ("x", J::N(x as i64)), ("big_table_opened_as", J::N(pos as i64)), ("handle", J::N(hi as i64)), ("round", J::N(round)), ("key", J::s(&hex(p))), ("got", J::s(&got.map(|v| hex(&v)).unwrap_or("none".into()))), ("want", J::s(&want.map(|v| hex(&v)).unwrap_or("none".into())))]));
+                            return;
+                        }
+                    }
+                }
+            }
+        }
+    }
+}
+
 pub fn c10(ctx: &Ctx) -> Report {
     let base = Report::new("C10", "1..3 tables (random configurations; byte-identical images and two handles on one image included) sharing one block cache of capacity 1..#blocks+1, 1..4 clients (iterators and lookups) whose steps (next, prev, seek, get, approx) are interleaved at random, table handles dropped while their iterators continue; compared op by op with the model (results, read_at log, hit/miss events, cache count); judge: every op result equals the same session with capacity 10000 (private unbounded cache); count <= capacity after every op; cache ids of distinct opens differ; hit/miss events equal those of the Spec LRU fed with the access sequence, a miss reads the block exactly once, a hit reads nothing; thorough adds all interleavings of two 4-step clients; non-trivial = session with >= 2 clients or capacity < #blocks; distinct by request");
     let n = per_thread(ctx, 3000, 40000);
     parallel(&ctx.driver, ctx.threads, ctx.seed, base, |t, d, rng, rep| {
         if t == 0 {
             many_tables_one_cache(d, rep, rng);
+        }
+        if t == 2 % ctx.threads.max(1) {
+            tables_beyond_4gib(rep, rng);
         }
         for i in 0..n {
             // tables
